@@ -200,7 +200,7 @@ namespace verif {
     ActorRun out;
     SimConfig cfg{};
     cfg.n_actors = n;
-    cfg.step_cap = ps.has("cap") ? ps.at("cap").unum() : 400000;
+    cfg.step_cap = ps.has("cap") ? ps.at("cap").unum() : 3000000;
     cfg.trace_fd = -1;
     if (const char *tf = getenv("VERIF_TRACE_FD")) {
       cfg.trace_fd = atoi(tf);
